@@ -10,6 +10,9 @@ use noodles_csi::binning_index::index::{
 use self::{bins::read_bins, intervals::read_intervals};
 use crate::io::reader::num::read_u32_le;
 
+// The count comes from the input: use it as a capacity hint only up to this bound.
+const MAX_PREALLOCATED_LEN: usize = 1 << 16;
+
 pub(super) fn read_reference_sequences<R>(
     reader: &mut R,
 ) -> io::Result<Vec<ReferenceSequence<LinearIndex>>>
@@ -20,7 +23,7 @@ where
         usize::try_from(n).map_err(|e| io::Error::new(io::ErrorKind::InvalidData, e))
     })?;
 
-    let mut references = Vec::with_capacity(n_ref);
+    let mut references = Vec::with_capacity(n_ref.min(MAX_PREALLOCATED_LEN));
 
     for _ in 0..n_ref {
         let (bins, metadata) = read_bins(reader)?;
